@@ -99,10 +99,14 @@ def _install_logging_stubs():
     INSTALLED["stubs"].append("time.time -> frozen clock 1000.0 (only feeds log text and the RTU inter-frame bookkeeping; harnesses that reason about deadlines install their own clock)")
     import pymodbus.utilities as U
     def _hexlify_packets(packet):
-        return ""
+        # transaction.execute() tests the truthiness of this text to decide whether to reset the framer,
+        # so emptiness must be preserved
+        if not packet:
+            return ""
+        return "<hex>"
     _override(U.hexlify_packets, _hexlify_packets)
     # modules that did `from pymodbus.utilities import hexlify_packets` hold the same function object
-    INSTALLED["stubs"].append("pymodbus.utilities.hexlify_packets -> '' (log text only)")
+    INSTALLED["stubs"].append("pymodbus.utilities.hexlify_packets -> '' for empty input, placeholder text otherwise (its text is only logged; its emptiness is used by execute())")
 
 
 
